@@ -571,7 +571,7 @@ def cleanup_model(model: Model):
     newstats = []
     for s in model.statements:
         if isinstance(s, Assignment) and s.expression.is_symbol():
-            current[s.symbol] = s.expression
+            current[s.symbol] = s.expression.subs(current)
         else:
             n = s.subs(current)
             newstats.append(n)
